@@ -997,7 +997,8 @@ def r_writers(ctx, view):
         for ev in view.fx.events(f):
             if ev["kind"] == "tw":
                 origin = f.blocks[ev["bb"]].get("from_fn", "") if isinstance(ev.get("bb"), int) and ev["bb"] < len(f.blocks) else ""
-                if origin.startswith(("store::Store::", "<store::Store as")):
+                rk = root_fn(prog, f).key
+                if origin.startswith(("store::Store::", "<store::Store as")) and not rk.startswith(("store::", "<store::")):
                     # the write sits in the spliced body of a NEW function of the Store (inlined into its callers so that every
                     # rule judges it in context): it is the Store's write, not the caller's
                     spliced.setdefault(origin, []).append(ev)
@@ -1005,7 +1006,7 @@ def r_writers(ctx, view):
                 got.setdefault(root_fn(prog, f).key, []).append(ev)
     for k in sorted(spliced):
         ctx.ob("R-WRITERS", k + ":spliced", True, "", "a new function of the Store, which owns the tables (%d raw writes, analysed inside its callers)" % len(spliced[k]))
-    n = 0
+    n = len(spliced)
     for k in sorted(got):
         f = prog.fn(k)
         st = f.j.get("impl_self") or {}
